@@ -222,6 +222,8 @@ func entryNames(prefix string, k int) []string {
 	return out
 }
 
+var retryEmptyRot int
+
 func goodYAML(prefix string, k int) string {
 	if k == 0 {
 		return "[]\n"
@@ -254,7 +256,14 @@ func putFile(path, kind, prefix string, k int) error {
 	case "loop":
 		return os.Symlink(filepath.Base(path), path)
 	case "good":
-		return os.WriteFile(path, []byte(goodYAML(prefix, k)), 0o644)
+		content := goodYAML(prefix, k)
+		if k == 0 {
+			// a file with no entries has several spellings: an empty list, a zero-byte file, a comment-only file, a bare
+			// document marker - every one of them is a readable file holding zero commands
+			retryEmptyRot++
+			content = []string{"[]\n", "", "# my notebook: nothing saved yet\n", "---\n", "\n\n"}[retryEmptyRot%5]
+		}
+		return os.WriteFile(path, []byte(content), 0o644)
 	}
 	return fmt.Errorf("unknown kind %q", kind)
 }
